@@ -171,3 +171,48 @@ def shrink(case):
             qs = [q for q in case["qs"] if q[0] in vs and set(q[1]) <= vs]
         if qs:
             yield dict(case, g=h, **{key: qs})
+
+
+# ---- REPEAT stream helpers shared by c11.py / c12.py ----
+def one_edge_per_pair(g):
+    seen = set()
+    for k in "DBUC":
+        for a, b in g[k]:
+            p = frozenset((a, b))
+            if p in seen:
+                return False
+            seen.add(p)
+    return True
+
+
+def legal_neighbour(g, rep, guarded=False):
+    """a perturbed neighbour of g (same node and edge counts) to warm the object up on; for classes whose add_edge has a
+    guard (PAG) only neighbours with at most one edge per node pair are legal states: try a few seeds, else no warm-up"""
+    import random
+    if rep is None:
+        return None
+    for attempt in range(8):
+        h = gr.perturb(g, random.Random(rep if attempt == 0 else "%s:%d" % (rep, attempt)))
+        if h is not None and (not guarded or one_edge_per_pair(h)):
+            return h
+    return None
+
+
+def morph(obj, g_from, g_to, lab, names):
+    """graphs.morph with ALL removals (every layer) before ANY addition, so that a guarded class never sees two edges on one pair"""
+    plan = []
+    for k in "DBUC":
+        if k not in names:
+            continue
+        und = k in "BU"
+        norm = (lambda e: tuple(sorted(e))) if und else (lambda e: tuple(e))
+        old = {norm(e) for e in g_from[k]}
+        new = {norm(e) for e in g_to[k]}
+        plan.append((k, sorted(old - new), sorted(new - old)))
+    for k, rem, _ in plan:
+        for a, b in rem:
+            obj.remove_edge(lab(a), lab(b), names[k])
+    for k, _, add in plan:
+        for a, b in add:
+            obj.add_edge(lab(a), lab(b), names[k])
+    return obj
